@@ -456,6 +456,40 @@ func (r *c10Run) step(ctx context.Context, raw json.RawMessage) {
 			r.b.Emit("Reg", "e", id, "L", l, "err", e1 != nil, "burst", 1)
 			r.b.Emit("Bad", "e", id, "L", bad, "rejected", e2 != nil)
 		}
+	case "Swap":
+		// two successful discoveries of one endpoint whose background unifications run in the OPPOSITE order: the
+		// first one's is held at the gate until the second one's has finished
+		id := zzverif.Str(args[0])
+		l1, l2 := c10Entries(args[1]), c10Entries(args[2])
+		r.rig.be[id].script(c10Resp{status: 200, listing: l1}, c10Resp{status: 200, listing: l2})
+		var e1, e2 error
+		ok := r.guarded("Swap", func() {
+			release := func() {}
+			if r.unified {
+				release = registry.VerifC10HoldFirst(r.eps[id].URLString)
+			}
+			e1 = r.discover(ctx, id)
+			e2 = r.discover(ctx, id)
+			if r.unified && r.probe != nil {
+				if e1 == nil && e2 == nil {
+					// the second listing's unification completes while the first one's is still held
+					r.probe.WaitMerged(r.expected+1, 5*time.Second)
+				}
+			}
+			release()
+		})
+		if ok {
+			if r.unified {
+				if e1 == nil {
+					r.expected++
+				}
+				if e2 == nil {
+					r.expected++
+				}
+			}
+			r.b.Emit("Reg", "e", id, "L", l1, "err", e1 != nil, "burst", 1)
+			r.b.Emit("Reg", "e", id, "L", l2, "err", e2 != nil, "burst", 2)
+		}
 	case "Burst":
 		// two successful discoveries of the same endpoint, the second issued as soon as the first
 		// returned (its asynchronous merge may still be pending)
